@@ -912,6 +912,15 @@ class FnVerifier:
                 st = T.Seq(lt)
                 deltas[ext.event] = (cur, fresh(st, "dlog_" + ext.event.replace(".", "_")))
                 R.ghost[("log", ext.event)] = deltas[ext.event][1]
+        # events the callee emits through ghost `asserts` (emit=(event, expression, type)) are events of that call as well; they used to be
+        # left out, so a caller's clause over such a log spoke about an always-empty log (found with the seeded change C15-4)
+        for a_ in cc.asserts:
+            em = a_.get("emit") if isinstance(a_, dict) else None
+            if em and em[0] not in deltas and (cc.emits is None or em[0] in cc.emits):
+                st = T.Seq(em[2])
+                cur = R.ghost.get(("log", em[0]))
+                deltas[em[0]] = (cur, fresh(st, "dlog_" + em[0].replace(".", "_")))
+                R.ghost[("log", em[0])] = deltas[em[0]][1]
         try:
             for lbl, en in cc.ensures.items():
                 try:
